@@ -611,6 +611,11 @@ type probeOut struct {
 	BigDst  int64  `json:"big_dst"`
 	BigErr  string `json:"big_err,omitempty"`
 	BigOK   bool   `json:"big_exact"`
+	// schedule probe: node B's lookup of an EXPIRED record is paused between its Get and its Delete while node A
+	// registers the same tunnel id again; afterwards the fresh registration is looked up
+	RaceLookupB string `json:"race_lookup_b,omitempty"` // what B's lookup answered
+	RaceAfter   string `json:"race_after,omitempty"`    // what a lookup of the fresh registration answers afterwards
+	RaceLost    bool   `json:"race_lost"`
 	PropOK  bool   `json:"prop_ok"`
 	FailAt  int    `json:"fail_at"`
 	Obs     []int  `json:"obs"`
@@ -618,8 +623,56 @@ type probeOut struct {
 	Comment string `json:"comment,omitempty"`
 }
 
+// hookStore runs a callback between the caller's decision to delete and the delete itself (a deterministic replay of
+// the schedule "another node acts inside LookupWaitingTunnel's Get..Delete window")
+type hookStore struct {
+	storage.Storage
+	onDelete func()
+}
+
+func (h *hookStore) Delete(key string) error {
+	if f := h.onDelete; f != nil {
+		h.onDelete = nil
+		f()
+	}
+	return h.Storage.Delete(key)
+}
+
+func lookRes(got *tunnel.WaitingState, err error) string {
+	switch {
+	case err == nil:
+		return "ok:" + got.TargetHost
+	case err == tunnel.ErrNotFound:
+		return "notfound"
+	case err == tunnel.ErrExpired:
+		return "expired"
+	}
+	return "err:" + err.Error()
+}
+
+func raceProbe(p *probeOut) {
+	ctx := context.Background()
+	// a backend that still holds the key when the waiting period has lapsed (Redis whose TTL has a little longer to run,
+	// or any cache with lazy expiry): here memory.Storage with the ttl dropped
+	hs := &hookStore{Storage: lazyStore{memory.New(ctx)}}
+	a := tunnel.NewRoutingTable(hs, 60*time.Millisecond)
+	b := tunnel.NewRoutingTable(hs, 60*time.Millisecond)
+	must(a.RegisterWaitingTunnel(ctx, &tunnel.WaitingState{TunnelID: "T", SourceNodeID: "node-a", TargetHost: "first"}))
+	time.Sleep(90 * time.Millisecond)
+	hs.onDelete = func() {
+		must(a.RegisterWaitingTunnel(ctx, &tunnel.WaitingState{TunnelID: "T", SourceNodeID: "node-a", TargetHost: "second"}))
+	}
+	p.RaceLookupB = lookRes(b.LookupWaitingTunnel(ctx, "T"))
+	p.RaceAfter = lookRes(b.LookupWaitingTunnel(ctx, "T"))
+	p.RaceLost = p.RaceAfter != "ok:second"
+}
+
 func runProbe(c caseIn) *probeOut {
 	p := &probeOut{Backend: c.Backend, PropOK: true, FailAt: -1, Stream: "probe", Obs: []int{}}
+	if c.Backend == "race" {
+		raceProbe(p)
+		return p
+	}
 	c.Nodes = 2
 	if c.TTLms == 0 {
 		c.TTLms = 30000
